@@ -15,7 +15,7 @@ claimed = {
              tech="contract-based deductive verification: WP/VC generation over the typed Go AST (lzvc), SMT discharge (z3/cvc5)", ref="DESIGN.md §4 C04"),
  "C05": dict(cat="other", text="Proof of: no index/slice/nil/overflow failure in decoder_buffer.go for arbitrary Seq values (full uint32 range) in any state satisfying decInv; WriteMatch/WriteBlock reject Offset 0 with MatchLen>0, Offset > min(WindowSize, available) and LitLen > remaining literals; every consumed sequence t<k was well-formed; on error n,k,l equal the sums over the consumed sequences and the retained stream is unchanged (decKept); the caller's Block arrays are outside the frame. NOT proved: pointwise content of the appended bytes in WriteBlock (see C04).",
              note="Same assumptions as C04.", tech="contract-based deductive verification: WP/VC generation over the typed Go AST (lzvc), SMT discharge (z3/cvc5)", ref="DESIGN.md §4 C05"),
- "C06": dict(cat="proof", text="Every loop in decoder_buffer.go has a variant that is proved non-negative and strictly decreasing (doubling copy loops: n; Decoder.WriteByte/Write retry loops: lexicographic remaining-input/drained measure); range loops terminate structurally. The retry loop of Decoder.WriteBlock does not satisfy its variant: recorded known finding (genuine defect, not repaired: needs an API-level redesign).",
+ "C06": dict(cat="other", text="Every loop in decoder_buffer.go has a variant that is proved non-negative and strictly decreasing (doubling copy loops: n; Decoder.WriteByte/Write retry loops: lexicographic remaining-input/drained measure); range loops terminate structurally. The retry loop of Decoder.WriteBlock does not satisfy its variant: recorded known finding (genuine defect, not repaired: needs an API-level redesign).",
              note="The writer is assumed to return; known finding lz.Decoder.WriteBlock#dec.step.loop0 is suppressed by name only.", tech="contract-based deductive verification: WP/VC generation over the typed Go AST (lzvc), SMT discharge (z3/cvc5)", ref="DESIGN.md §4 C06"),
  "C18": dict(cat="proof", text="With a ghost model of the writer (g_Mw, g_Mwn = bytes accepted so far) in the assumed io.Writer contract, WriteTo is proved to hand over exactly Data[R:], to advance R by exactly the accepted count also on error, and every Decoder method is proved to keep accepted-count minus absolute-read-position constant and the accepted prefix immutable; together with decKept this gives prefix-exactly-once.",
              note="io.Writer obeys 0<=n<=len(p) and does not modify p; the step from these clauses to the property's wording (retry of the remainder) is a meta-argument over the proved k/l/n clauses of C17.", tech="contract-based deductive verification: WP/VC generation over the typed Go AST (lzvc), SMT discharge (z3/cvc5)", ref="DESIGN.md §4 C18"),
